@@ -440,6 +440,11 @@ def gen_history(rng, tier, kd="pick", style=None, mod="pick", scalar_init=None, 
                 op["qdtype"] = "int64"
         elif name in ("set1", "setv", "setvv"):
             q = [rng.choice(keys)] if name == "set1" else rng.sample(keys, rng.randint(1, n))
+            if name == "setv" and n > 1 and rng.random() < 0.4:
+                # one value for a key vector that names some keys several times and others not at all -- as long as the key set, or any other length
+                m_ = n if rng.random() < 0.6 else rng.randint(2, 2 * n)
+                sub_ = rng.sample(keys, rng.randint(1, n - 1))
+                q = [rng.choice(sub_) for _ in range(m_)]
             op["keys"] = q
             op["vals"] = fresh(len(q) if name == "setvv" else 1)
             if tb == "t":
@@ -490,6 +495,20 @@ def directed():
             yield {"keys": keys, "kdtype": kd, "mod": None, "init": init, "vdtype": "int64", "nonkeys": nonkeys, "style": "dense",
                    "ops": [{"op": "getv", "table": "t", "keys": keys[:5]}, {"op": "set1", "table": "t", "keys": [keys[1]], "vals": [1000]}, {"op": "contains", "table": "t", "keys": keys[:3] + nonkeys[:2]},
                            {"op": "hs_containsv", "table": "t", "keys": keys[-2:] + nonkeys[:1]}, {"op": "items", "table": "t"}]}
+    # every key in one or two buckets (a caller-given modulus of 1 / 2): buckets longer than a narrow key type can count, and
+    # thousands of colliding keys queried with thousands of (present and absent) keys at once
+    for kd, nk, mod in (("int8", 130, 1), ("int8", 200, 1), ("uint8", 256, 1), ("int8", 256, 2), ("int64", 3000, 1)):
+        ii = np.iinfo(kd or "int64")
+        pool = list(range(int(ii.min), int(ii.max) + 1)) if kd in ("int8", "uint8", "int16", "uint16") else [i * 7919 - 20000000 for i in range(3 * nk)]
+        keys = rng.sample(pool, nk)
+        ks_ = set(keys)
+        absent = [x for x in pool if x not in ks_][:max(5, min(3000, len(pool) - nk))] or [keys[0]]
+        nq = 9000 if nk >= 3000 else 40
+        q = [rng.choice(keys) if rng.random() < 0.6 else rng.choice(absent) for _ in range(nq)] if len(pool) > nk else [rng.choice(keys) for _ in range(nq)]
+        for init in (3, [(i * 5) % 13 for i in range(nk)]):
+            yield {"keys": keys, "kdtype": kd, "mod": mod, "init": init, "vdtype": "int64", "nonkeys": absent[:5], "style": "collide-all",
+                   "ops": [{"op": "contains", "table": "t", "keys": q}, {"op": "hs_containsv", "table": "t", "keys": q[::-1]}, {"op": "getv", "table": "t", "keys": [k for k in q if k in ks_][:nq // 2]},
+                           {"op": "setv", "table": "t", "keys": keys[:3], "vals": [777]}, {"op": "contains", "table": "t", "keys": q[:50]}, {"op": "getv", "table": "t", "keys": keys[:7]}]}
     # 12..40 keys spread over a huge range; membership queries in which an absent key occurs several times
     for nk in (12, 20, 25, 40):
         keys = [(i * 3 + 1) * 2 ** 40 + i * 7 for i in range(nk)]
